@@ -14,6 +14,7 @@ import (
 	"net/http"
 	"net/http/httptest"
 	"regexp"
+	"runtime"
 	"strconv"
 	"strings"
 	"sync"
@@ -153,6 +154,22 @@ func ccFlame(g *ccGates) *flamego.Flame {
 		b, _ := json.Marshal(out)
 		return string(b)
 	})
+	// a route that reads the request body with the Body().Bytes() helper and uses the bytes AFTER other requests have read theirs
+	f.Post("/bd", func(c flamego.Context, t *reqTag) {
+		id := idOf(c.Request().Request)
+		b, _ := c.Request().Body().Bytes()
+		g.gate(id)
+		runtime.Gosched() // let the other requests of the round read their bodies first
+		val := string(b)
+		if i := strings.IndexByte(val, ';'); i >= 0 {
+			val = val[:i]
+		}
+		out := ccOut{H: "body", Val: val, Tag: t.id, URL: c.URLPath("named", "v", c.Request().Header.Get("X-Val")), Wid: id}
+		out.Scr, _ = strconv.Atoi(c.Param("_scratch"))
+		c.ResponseWriter().Header().Set("X-Wid", strconv.Itoa(id))
+		o, _ := json.Marshal(out)
+		_, _ = c.ResponseWriter().Write(o)
+	})
 	// "cold" routes: a static segment that has no sibling registered after it (alone in its method tree / the only child of
 	// its parent), so that nothing at set-up time has looked at it yet - the first requests do, concurrently
 	f.Delete("/lone/{v}", h("lone"))
@@ -172,12 +189,17 @@ func m0(rq ccReq) string { return fmt.Sprintf("boom-%s-%d-", rq.Val, rq.ID) }
 
 func ccRequest(rq ccReq) *http.Request {
 	path := map[string]string{"static": "/s", "param": "/p/" + rq.Val, "opt": "/o/" + rq.Val, "regex": "/r/" + rq.Val,
-		"all": "/a/" + rq.Val, "hdr": "/h", "render": "/rd/" + rq.Val, "panic": "/pn/" + rq.Val, "lone": "/lone/" + rq.Val, "deep": "/deep/er/" + rq.Val, "ret": "/ret/" + rq.Val}[rq.Route]
+		"all": "/a/" + rq.Val, "hdr": "/h", "render": "/rd/" + rq.Val, "panic": "/pn/" + rq.Val, "lone": "/lone/" + rq.Val, "deep": "/deep/er/" + rq.Val, "ret": "/ret/" + rq.Val, "body": "/bd"}[rq.Route]
 	method := "GET"
 	if rq.Route == "lone" {
 		method = "DELETE"
 	}
-	r, _ := http.NewRequest(method, path, nil)
+	var payload io.Reader
+	if rq.Route == "body" {
+		// larger than the smallest buffer a reader grows to, and of the same size for every request
+		method, payload = "POST", io.MultiReader(strings.NewReader(rq.Val+";"), strings.NewReader(strings.Repeat("x", 700-len(rq.Val))))
+	}
+	r, _ := http.NewRequest(method, path, payload)
 	r.Header.Set("X-Req-Id", strconv.Itoa(rq.ID))
 	r.Header.Set("X-Val", rq.Val)
 	r.Header.Set("X-K", "k")
@@ -295,7 +317,11 @@ func ccReplay(raw json.RawMessage, idx int, tr *traceWriter) {
 
 func ccGen(seed int64, n int, args []string, out *json.Encoder) {
 	rng := rand.New(rand.NewSource(seed))
-	kinds := []string{"static", "param", "opt", "regex", "all", "hdr", "render", "render", "panic", "panic", "lone", "lone", "lone", "deep", "deep", "ret", "ret", "ret"}
+	kinds := []string{"static", "param", "opt", "regex", "all", "hdr", "render", "render", "panic", "panic", "lone", "lone", "lone", "deep", "deep", "ret", "ret", "ret", "body", "body", "body"}
+	if len(args) > 0 && args[0] == "panic" {
+		// rounds in which most requests panic at the same time (through the one Recovery instance of the round)
+		kinds = []string{"panic", "panic", "panic", "panic", "panic", "panic", "static", "param", "ret"}
+	}
 	for i := 0; i < n; i++ {
 		k := 8 + rng.Intn(57)
 		c := ccCase{Sched: []int{}}
